@@ -112,7 +112,7 @@ class FuncInfo:
 
     def body_nodes(self) -> Iterable[ast.AST]:
         """All nodes in the body, not descending into nested function / class definitions."""
-        stack = list(reversed(self.node.body))
+        stack = [n for n in reversed(self.node.body) if not isinstance(n, (ast.FunctionDef, ast.AsyncFunctionDef, ast.ClassDef))]
         while stack:
             n = stack.pop()
             yield n
